@@ -412,6 +412,33 @@ class CellSim(object):
             self.cell.partitions[label].add(server, None)
         self.down_since.pop(server.name, None)
 
+    def op_reslot(self, idx, day):
+        """The reboot slot of an up server is assigned again, the way
+        Loader.set_server_valid_until does after a presence change: with the
+        date found in the presence node (any reboot date an earlier master
+        chose; here: 23:59:59 UTC `day` days from today) or, if there is no
+        such slot, wherever Partition.add puts it. Aimed at servers that host
+        instances with a lease."""
+        servers = self.servers()
+        leased = sorted(
+            n for n, srv in servers.items()
+            if srv.state is scheduler.State.up and any(
+                self.decl_apps[a]['lease'] for a in srv.apps))
+        if leased and idx % 4:
+            server = servers[leased[idx % len(leased)]]
+        else:
+            server = self._server(idx)
+        if server is None or server.state is not scheduler.State.up:
+            return
+        now = self.clock.peek()
+        stamp = None
+        if day is not None:
+            stamp = float(int(now // 86400) * 86400 + day * 86400 + 86399)
+        for label in server.labels:
+            self.cell.partitions[label].remove(server)
+            self.cell.partitions[label].add(server, stamp)
+        self.stats_count('reslot')
+
     def op_freeze(self, idx, app_idxs):
         server = self._server(idx)
         if server is None or server.state is scheduler.State.down:
